@@ -98,7 +98,7 @@ func (ex *Exec) contractHasPropClauses(c *Contract) bool {
 		return tagOwned(c.Tags, ex.prop)
 	}
 	for _, cl := range c.Clauses {
-		if cl.Kind != "requires" && tagOwned(cl.Tags, ex.prop) {
+		if cl.Kind != "requires" && tagOwned(cl.Tags, ex.prop) && !cl.Assumed {
 			return true
 		}
 	}
@@ -219,7 +219,7 @@ func (ex *Exec) verifyFunc(fn *ssa.Function, caseParam string, caseLit Expr) *Fu
 	// every assert clause must have met its call site (else the contract is stale)
 	for _, cl := range c.Clauses {
 		if cl.Kind == "assert" && tagActive(cl.Tags, ex.prop) {
-			if !cl.Reached {
+			if !cl.Reached && !cl.Schema {
 				ex.cerr("%s:%d: assert @%s never reached in %s", cl.File, cl.Line, cl.Names[0], shortKey(key))
 			}
 			cl.Reached = false
@@ -253,8 +253,11 @@ func (ex *Exec) verifyFunc(fn *ssa.Function, caseParam string, caseLit Expr) *Fu
 		if len(o.Ret) == 1 {
 			penv.vars["result"] = TV{o.Ret[0], rts[0]}
 		}
+		if n := len(o.Ret); n > 0 && isErrorType(rts[n-1]) {
+			penv.vars["lasterr"] = TV{o.Ret[n-1], rts[n-1]}
+		}
 		for _, cl := range c.Clauses {
-			if cl.Kind != "ensures" || !tagOwned(cl.Tags, ex.prop) {
+			if cl.Kind != "ensures" || !tagOwned(cl.Tags, ex.prop) || cl.Assumed {
 				continue
 			}
 			g := ex.evalBool(cl.E, penv)
@@ -285,7 +288,7 @@ func (ex *Exec) verifyFunc(fn *ssa.Function, caseParam string, caseLit Expr) *Fu
 		}
 		// ghost frame: ghosts not listed in modifies are unchanged
 		mod := ex.contractEffects(c).Ghosts
-		for _, gname := range ex.activeGhosts {
+		for _, gname := range ex.frameGhosts {
 			if mod[gname] {
 				continue
 			}
